@@ -8,12 +8,19 @@
 (*                       carries `ondisk` = "the LOCK record of this       *)
 (*                       request is in the leader's append file on disk    *)
 (*                       NOW" (the file is re-read inside the reply        *)
-(*                       callback)                                         *)
+(*                       callback); when the record carries a value frame  *)
+(*                       (`hasval`: AOF_FLAG_CONTAINS_DATA) also           *)
+(*                       `valondisk` = "that frame is in the value file    *)
+(*                       append.aof.N.dat at the place its flush put it"   *)
 (*   fack / flush / cut / demote / status                                  *)
 (*                       what the environment did: follower k acknowledged *)
 (*                       record R with result x, the leader's buffer was   *)
 (*                       flushed (ok or failing), a follower link was cut, *)
-(*                       the node was demoted                              *)
+(*                       the node was demoted.  A flush is two writes:     *)
+(*                       `rec` / `val` say whether the write of the entry  *)
+(*                       file / of the value file worked, `recs` lists the *)
+(*                       ack records of that flush (request, carries a     *)
+(*                       value frame or not)                               *)
 (*   snap                canonical snapshot at a quiescent point: holders  *)
 (*                       (with the ack-pending mark), live waiters, value, *)
 (*                       number of follower links, ack mode                *)
@@ -21,7 +28,9 @@
 (* The monitor contains no copy of the counting logic of the code.  It     *)
 (* re-states C11:                                                          *)
 (*  (1) SUCCED of an ack-required lock only if its record is on the        *)
-(*      leader's disk and at least Required(mode, followers) DISTINCT      *)
+(*      leader's disk - the 64-byte entry AND, when the record carries     *)
+(*      one, its value frame: a record whose value is missing is not       *)
+(*      "written" - and at least Required(mode, followers) DISTINCT      *)
 (*      followers acknowledged it positively (Required: all = n,           *)
 (*      majority = majority of the n+1 data nodes minus the leader);       *)
 (*  (2) while it is pending every request naming its LockId on that key is *)
@@ -31,6 +40,13 @@
 (*      error (ERROR, TIMEOUT, ...) the hold is gone, the value is the one *)
 (*      before the grant and an admissible queued request has been served; *)
 (*      at the end of a drained history nothing is left pending.           *)
+(*  (4) follower half of the handshake (histories of mode "ackf": a real    *)
+(*      node in the follower role is handed records as the replication     *)
+(*      client does and its own log is flushed with failing writes;        *)
+(*      `fsent` = the ack frame it sent to its leader, with its two log    *)
+(*      files re-read at that moment): an acknowledgement is POSITIVE only *)
+(*      when the record - entry and value frame - is in that follower's    *)
+(*      own log and its write did not fail.                                *)
 (* Agnostic where the statement is silent: the required number is the      *)
 (* MINIMUM over the configurations seen while the request was pending; a   *)
 (* negative ack dooms the request only when the remaining followers cannot *)
@@ -81,10 +97,13 @@ M0 == [ reqs |-> EmptyFn,      \* request id -> record
         touch |-> {},          \* <<key, request id>>: value-carrying lock requests answered since the last snapshot
         last |-> EmptyFn,      \* <<db,key>> -> value (hex) at the last snapshot
         nf |-> 0, mode |-> 0, leader |-> TRUE, demoted |-> FALSE,
+        fside |-> FALSE,       \* history of the follower part of engine A
+        frecs |-> EmptyFn,     \* follower part: record id -> [ack, hasval, key, lid]
+        ffail |-> EmptyFn,     \* follower part: record id -> which write of its flush failed ("entry" / "value")
         nv |-> 0, t |-> 0, tr |-> 0, name |-> "" ]
 
 StepBegin(mm, e) == [M0 EXCEPT !.nv = mm.nv, !.tr = e.idx, !.name = e.name, !.t = e.t,
-                               !.nf = e.followers, !.mode = e.ackmode]
+                               !.nf = e.followers, !.mode = e.ackmode, !.fside = (e.mode = "ackf")]
 
 \* ---------------------------------------------------------------- requests
 IsAckReq(e) == e.cmd = "L" /\ Bit(e.tf, TF_ACK) /\ e.ex > 0 /\ ~Bit(e.flag, F_SHOW) /\ ~Bit(e.flag, F_UPDATE)
@@ -127,7 +146,14 @@ StepReply(mm0, e) ==
              m3 == Check(m2, disk, "succed-before-leader-log",
                          [rid |-> e.rid, key |-> r.key, lid |-> r.lid, followers |-> p.nf0, mode |-> mm.mode,
                           acked_by |-> SetToSeq(p.acks), acks |-> Cardinality(p.acks), pending_seen |-> seen])
-             m4 == Check(m3, Cardinality(p.acks) >= p.reqmin, "succed-before-follower-quorum",
+             \* the entry is there but the value frame of the record is not (only judged when the harness could attribute
+             \* the value buffer of that flush frame by frame)
+             valmiss == /\ disk /\ "hasval" \in DOMAIN e /\ e.hasval
+                        /\ "valknown" \in DOMAIN e /\ e.valknown /\ ~e.valondisk
+             m3b == Check(m3, ~valmiss, "succed-before-value-in-leader-log",
+                         [rid |-> e.rid, key |-> r.key, lid |-> r.lid, followers |-> p.nf0, mode |-> mm.mode,
+                          entry_on_disk |-> TRUE, value_frame_on_disk |-> FALSE, acks |-> Cardinality(p.acks), pending_seen |-> seen])
+             m4 == Check(m3b, Cardinality(p.acks) >= p.reqmin, "succed-before-follower-quorum",
                          [rid |-> e.rid, key |-> r.key, lid |-> r.lid, followers |-> p.nf0, mode |-> mm.mode,
                           acked_by |-> SetToSeq(p.acks), required |-> p.reqmin, pending_seen |-> seen])
              m5 == Check(m4, ~p.doomed, "succed-after-failure",
@@ -150,10 +176,39 @@ StepFack(mm, e) ==
              p2 == IF dead /\ ~p1.doomed THEN [p1 EXCEPT !.doomed = TRUE, !.why = "required-follower-ack-negative"] ELSE p1
          IN [mm EXCEPT !.pend[e.rid] = p2]
 
+\* a failed write dooms the requests whose record was in that write: the entry write fails -> every ack record of the
+\* flush; the entry write works and the value write fails -> the records that carry a value frame (the others are
+\* completely in the log; the statement is silent on them)
 StepFlush(mm, e) ==
+    IF "recs" \in DOMAIN e
+    THEN LET R   == {e.recs[j].rid : j \in 1..Len(e.recs)}
+             HV  == {e.recs[j].rid : j \in {k \in 1..Len(e.recs) : e.recs[k].hv}}
+             bad == IF ~e.rec THEN R ELSE IF ~e.val THEN HV ELSE {}
+             why == IF ~e.rec THEN "leader-write-failed" ELSE "leader-value-write-failed"
+         IN IF mm.fside
+            THEN [mm EXCEPT !.ffail = [x \in (DOMAIN @) \cup bad |-> IF x \in bad THEN (IF ~e.rec THEN "entry" ELSE "value") ELSE @[x]]]
+            ELSE [mm EXCEPT !.pend = [rid \in DOMAIN @ |->
+                IF rid \in bad THEN (IF @[rid].doomed THEN @[rid] ELSE [@[rid] EXCEPT !.doomed = TRUE, !.why = why])
+                ELSE IF rid \in R THEN [@[rid] EXCEPT !.flushed = TRUE] ELSE @[rid]]]
+    ELSE \* (older traces: one outcome for the whole flush, no record list)
     [mm EXCEPT !.pend = [rid \in DOMAIN @ |->
         IF e.ok THEN [@[rid] EXCEPT !.flushed = TRUE]
         ELSE IF ~@[rid].flushed /\ ~@[rid].doomed THEN [@[rid] EXCEPT !.doomed = TRUE, !.why = "leader-write-failed"] ELSE @[rid]]]
+
+\* ---------------------------------------------------------------- follower part
+StepFRec(mm, e) == [mm EXCEPT !.frecs = SetFn(@, e.id, [ack |-> e.ack, hasval |-> e.hasval, key |-> e.key, lid |-> e.lid]), !.t = e.t]
+
+\* the ack frame a follower sends for record e.id
+StepFSent(mm, e) ==
+    IF "res" \notin DOMAIN e \/ e.id \notin DOMAIN mm.frecs THEN mm
+    ELSE LET fr == mm.frecs[e.id]
+             inlog == /\ e.entry
+                      /\ ("hasval" \in DOMAIN e /\ e.hasval /\ "valknown" \in DOMAIN e /\ e.valknown) => e.valondisk
+             m1 == Check(mm, e.res # 0 \/ inlog, "follower-acked-positive-before-own-log",
+                         [record |-> e.id, key |-> fr.key, lid |-> fr.lid, result |-> e.res, entry_on_disk |-> e.entry, carries_value |-> fr.hasval,
+                          value_frame_on_disk |-> IF "valondisk" \in DOMAIN e THEN e.valondisk ELSE TRUE])
+         IN Check(m1, e.res # 0 \/ e.id \notin DOMAIN mm.ffail, "follower-acked-positive-after-failed-log-write",
+                  [record |-> e.id, key |-> fr.key, lid |-> fr.lid, result |-> e.res, failed_write |-> Get(mm.ffail, e.id, "")])
 
 StepCut(mm, e) ==
     IF e.skipped THEN mm
@@ -255,6 +310,8 @@ Step(mm, e) ==
       [] e.e = "flush"  -> StepFlush(mm, e)
       [] e.e = "cut"    -> StepCut(mm, e)
       [] e.e = "status" -> StepStatus(mm, e)
+      [] e.e = "frec"   -> StepFRec(mm, e)
+      [] e.e = "fsent"  -> StepFSent(mm, e)
       [] OTHER          -> mm
 
 Init == l = 1 /\ m = M0
